@@ -318,3 +318,107 @@ def r_qef_algebra(rule, root=None):
         rule.ok("solve: error = x^T A^T A x - 2 x^T A^T b + b^T b at the returned position%s" % ("" if clamp is None else ", clamped from below"), file=QEF, line=fs["ln"])
     else:
         rule.bad("qef|solve|err", "QuadraticErrorSolver::solve reports an error that is not E(x) = x^T A^T A x - 2 x^T A^T b + b^T b at the position it returns (difference `%s`)" % (sp.simplify(sp.expand(core - E)),), A.where(QEF, fs))
+
+
+# ---------------------------------------------------------------------------------------------------------------
+# Transformable for Interval / Grad: the homogeneous transform, whatever its control flow
+
+
+class TInterp(MInterp):
+    """adds what the `transform` bodies use: `mat.row(i)`, `mat[(i, j)]`, `[0, 1, 2, 3].map(|i| ..)`, `T::from(e)`"""
+
+    def ev(self, e):
+        k = e.get("k")
+        if k == "MethodCall":
+            m = e["method"]
+            if m in ("row", "column") and len(e["args"]) == 1:
+                recv = self.ev(e["recv"])
+                i = self.ev(e["args"][0])
+                if isinstance(recv, sp.MatrixBase) and isinstance(i, int):
+                    return list(recv[i, :]) if m == "row" else list(recv[:, i])
+            if m == "map" and len(e["args"]) == 1 and A.strip(e["args"][0]).get("k") == "Closure":
+                seq = self.ev(e["recv"])
+                clo = A.strip(e["args"][0])
+                ps = clo.get("inputs", clo.get("params"))
+                if isinstance(seq, list) and len(ps) == 1:
+                    out = []
+                    for item in seq:
+                        sub = TInterp(self.env)
+                        sub.bind(ps[0], item)
+                        out.append(sub.ev(clo["body"]))
+                    return out
+            if m in ("into", "clone") and not e["args"]:
+                return self.ev(e["recv"])
+        if k == "Closure":
+            return ("closure", e)
+        if k == "Call":
+            segs = A.path_segs(e["func"]) or []
+            if segs[-1:] == ["from"] and len(e["args"]) == 1:
+                return self.ev(e["args"][0])
+            f = self.env.get(segs[0]) if len(segs) == 1 else None
+            if isinstance(f, tuple) and f and f[0] == "closure":
+                clo = f[1]
+                ps = clo.get("inputs", clo.get("params"))
+                if len(ps) == len(e["args"]):
+                    sub = TInterp(self.env)
+                    for p_, a_ in zip(ps, e["args"]):
+                        sub.bind(p_, self.ev(a_))
+                    return sub.ev(clo["body"])
+        if k == "Index":
+            ix = A.strip(e["index"])
+            if ix.get("k") == "Tuple" and len(ix["elems"]) == 2:
+                v = self.ev(e["e"])
+                i, j = self.ev(ix["elems"][0]), self.ev(ix["elems"][1])
+                if isinstance(v, sp.MatrixBase) and isinstance(i, int) and isinstance(j, int):
+                    return v[i, j]
+        if k == "Unary" and e.get("op") == "*":
+            return self.ev(e["e"])
+        return super().ev(e)
+
+
+def transform_cases(fn):
+    """-> list of (conditions as {matrix symbol: value}, (x', y', z') expressions) or (None, why)"""
+    import re as _re
+
+    params = [A.binding_name(i["pat"]) for i in fn["sig"]["inputs"] if "pat" in i]
+    if len(params) != 4:
+        return None, "parameters"
+    x, y, z = sp.symbols("x y z", real=True)
+    Mt = sp.Matrix(4, 4, lambda i, j: sp.Symbol("m%d%d" % (i, j), real=True))
+    env = {params[0]: x, params[1]: y, params[2]: z, params[3]: Mt}
+    it = TInterp(env)
+    for s in A.find(fn["body"], "Let"):
+        if s.get("init") is None:
+            continue
+        try:
+            v = it.ev(s["init"])
+        except Exception as ex:  # noqa: BLE001
+            v = Opaque("not modelled: %s" % ex)
+        try:
+            it.bind(s["pat"], v)
+        except Exception:  # noqa: BLE001
+            pass
+    out = []
+    for val, conds in A.result_cases(fn["body"]):
+        sub = {}
+        for c in conds:
+            t = c.replace(" ", "")
+            neg = t.startswith("!")
+            atoms = t.lstrip("!").strip("()").split("&&")
+            if neg:
+                continue  # the general case: nothing is known
+            for a in atoms:
+                m = _re.fullmatch(r"\(*\*?(\w+)\[\((\d),(\d)\)\]==(-?[\d.]+)(?:f32)?\)*", a)
+                if not m or m.group(1) != params[3]:
+                    return None, "a condition `%s` is not an equation on a matrix entry" % c
+                sub[Mt[int(m.group(2)), int(m.group(3))]] = sp.nsimplify(float(m.group(4)))
+        try:
+            v = it.ev(val)
+        except Exception as ex:  # noqa: BLE001
+            return None, "result `%s`: %s" % (A.unparse(val)[:40], ex)
+        if not (isinstance(v, tuple) and len(v) == 3) or any(isinstance(q, Opaque) or q is None for q in v):
+            return None, "result `%s` is not a triple of modelled values" % A.unparse(val)[:40]
+        out.append((sub, v, val))
+    rows = [Mt[i, 0] * x + Mt[i, 1] * y + Mt[i, 2] * z + Mt[i, 3] for i in range(4)]
+    want = tuple(rows[i] / rows[3] for i in range(3))
+    return (out, want), None
